@@ -285,6 +285,8 @@ impl<'a, C: SimCfg> Runner<'a, C> {
                         crate::queries::Ev::Enter(i) => eprintln!("  enter node {}", invs[*i].node),
                         crate::queries::Ev::Exit(i) => eprintln!("  exit  node {} = {:?}", invs[*i].node, invs[*i].result),
                         crate::queries::Ev::Abort(i) => eprintln!("  abort node {}", invs[*i].node),
+                        crate::queries::Ev::Outside(i) => eprintln!("  node {} outside its domain", invs[*i].node),
+                        crate::queries::Ev::ReadStart(i, d) => eprintln!("  node {} starts reading {}", invs[*i].node, d),
                         crate::queries::Ev::Read(i, d, v) => eprintln!("  node {} read {} = {:?}", invs[*i].node, d, v),
                         crate::queries::Ev::Hook(s, a, b) => eprintln!("  hook {s} {a} {b}"),
                     }
@@ -304,7 +306,14 @@ impl<'a, C: SimCfg> Runner<'a, C> {
         }
     }
 
+    /// nodes that are undefined from scratch (a partial node outside its
+    /// domain) are never requested
+    pub(crate) fn askable(&self, root: u32) -> bool { !crate::program::is_undef(&self.model.fs(root)) }
+
     pub(crate) async fn user_query(&mut self, root: u32, ctx: &str) -> Result<(), Failure> {
+        if !self.askable(root) {
+            return Ok(());
+        }
         self.model.user_request(root);
         self.stats.user_requests += 1;
         let te = self.tracked.as_ref().unwrap();
